@@ -142,3 +142,192 @@ fn c04_call_direct_step() {
     }
     core::mem::forget(call);
 }
+
+// =====================================================================================
+// C08 — length- and close-delimited response bodies
+// =====================================================================================
+
+const W08: usize = 16;
+
+pub(crate) fn reader_of<S>(c: &Call<S, ()>) -> Option<BodyReader> {
+    c.state.reader
+}
+
+//@ props: C08 C01 C12
+//@ tier: quick
+//@ unwind: 4
+//@ unwindset: c08_call_read_length_step=18 try_from_fn_erased=66 from_fn=66
+//@ timeout: 900
+//@ encodes: Call::<RecvBody>::read, BodyReader::read, BodyReader::read_limit, BodyReader::is_ended, util::log_data
+//@ vars: remaining: any u64; input window 16 symbolic bytes (its tail plays the next response), in<=16; output 16 symbolic bytes, out<=16
+//@ bounds: windows <= 16 bytes; remaining unbounded
+//@ outside: windows longer than 16 bytes
+//@ clause: k=min(in,out,remaining) copied verbatim, (k,k) reported, nothing beyond k consumed or written, remaining'=remaining-k, ended <=> remaining'==0, (0,0) once ended
+#[kani::proof]
+fn c08_call_read_length_step() {
+    let left: u64 = kani::any();
+    let inp: [u8; W08] = kani::any();
+    let out0: [u8; W08] = kani::any();
+    let il = any_le(W08);
+    let ol = any_le(W08);
+    let mut call: Call<RecvBody, ()> = mk_call(
+        mk_state(Phase::RecvBody, bh::mk_writer_none(), Some(BodyReader::LengthDelimited(left))),
+        true,
+    );
+    let mut out = out0;
+    let r = call.read(&inp[..il], &mut out[..ol]);
+    let left_us = if left > usize::MAX as u64 { usize::MAX } else { left as usize };
+    let k = il.min(ol).min(left_us);
+    match r {
+        Ok((i, o)) => {
+            assert!(i <= il && o <= ol, "C12/counts-within-windows");
+            assert!(i == k && o == k, "C08/moves-min-of-three");
+        }
+        Err(_) => assert!(false, "C08/length-delimited-read-never-errs"),
+    }
+    let mut j = 0;
+    while j < W08 {
+        if j < k {
+            assert!(out[j] == inp[j], "C08/bytes-verbatim");
+        } else {
+            assert!(out[j] == out0[j], "C08/beyond-k-untouched");
+        }
+        j += 1;
+    }
+    assert!(call.state.reader == Some(BodyReader::LengthDelimited(left - k as u64)), "C08/countdown-exact");
+    assert!(call.is_ended() == (left - k as u64 == 0), "C08/complete-iff-N-delivered");
+    assert!(!call.is_close_delimited(), "C08/length-delimited-is-not-close-delimited");
+    kani::cover!(left == 0 && il > 0, "ended-short-circuit-with-next-response-bytes-present");
+    kani::cover!(k == left_us && il > k, "trailing-bytes-of-next-response-left-unconsumed");
+    kani::cover!(k > 0 && k < left_us, "partial");
+    kani::cover!(left > u32::MAX as u64, "huge-left");
+    core::mem::forget(call);
+}
+
+//@ props: C08 C01 C12
+//@ tier: quick
+//@ unwind: 4
+//@ unwindset: c08_call_read_close_step=18 try_from_fn_erased=66 from_fn=66
+//@ timeout: 900
+//@ encodes: Call::<RecvBody>::read, BodyReader::read, BodyReader::read_unlimit, is_ended, is_close_delimited
+//@ vars: input window 16 symbolic bytes, in<=16; output 16 symbolic bytes, out<=16
+//@ bounds: windows <= 16 bytes
+//@ outside: windows longer than 16 bytes
+//@ clause: k=min(in,out) passed through verbatim, (k,k) reported, reader stays close-delimited, never ended
+#[kani::proof]
+fn c08_call_read_close_step() {
+    let inp: [u8; W08] = kani::any();
+    let out0: [u8; W08] = kani::any();
+    let il = any_le(W08);
+    let ol = any_le(W08);
+    let mut call: Call<RecvBody, ()> = mk_call(
+        mk_state(Phase::RecvBody, bh::mk_writer_none(), Some(BodyReader::CloseDelimited)),
+        true,
+    );
+    let mut out = out0;
+    let r = call.read(&inp[..il], &mut out[..ol]);
+    let k = il.min(ol);
+    assert!(r == Ok((k, k)), "C08/close-delimited-passes-min-of-two");
+    let mut j = 0;
+    while j < W08 {
+        if j < k {
+            assert!(out[j] == inp[j], "C08/bytes-verbatim");
+        } else {
+            assert!(out[j] == out0[j], "C08/beyond-k-untouched");
+        }
+        j += 1;
+    }
+    assert!(call.state.reader == Some(BodyReader::CloseDelimited), "C08/close-delimited-state-stable");
+    assert!(call.is_close_delimited() && !call.is_ended(), "C08/close-delimited-never-ends-by-count");
+    kani::cover!(k == 0 && il > 0, "no-output-space");
+    kani::cover!(k > 0 && k < il, "partial");
+    core::mem::forget(call);
+}
+
+//@ props: C08 C12
+//@ tier: quick
+//@ unwind: 4
+//@ unwindset: memcmp=10 try_from_fn_erased=66 from_fn=66
+//@ timeout: 900
+//@ encodes: Call::<RecvBody>::read with reader NoBody
+//@ vars: input/out windows <= 8 symbolic bytes
+//@ bounds: windows <= 8
+//@ outside: -
+//@ clause: a call whose body is absent reads (0,0) and writes nothing
+#[kani::proof]
+fn c08_call_read_nobody_step() {
+    let inp: [u8; 8] = kani::any();
+    let out0: [u8; 8] = kani::any();
+    let il = any_le(8);
+    let ol = any_le(8);
+    let mut call: Call<RecvBody, ()> =
+        mk_call(mk_state(Phase::RecvBody, bh::mk_writer_none(), Some(BodyReader::NoBody)), true);
+    let mut out = out0;
+    let r = call.read(&inp[..il], &mut out[..ol]);
+    assert!(r == Ok((0, 0)), "C08/no-body-reads-nothing");
+    assert!(out == out0, "C08/beyond-k-untouched");
+    assert!(call.is_ended(), "C08/no-body-is-ended");
+    kani::cover!(il > 0 && ol > 0, "bytes-offered");
+    core::mem::forget(call);
+}
+
+// =====================================================================================
+// C03 — chunked body at the Call level (guards + delegation)
+// =====================================================================================
+
+const N03: usize = 64;
+
+//@ props: C03 C01
+//@ tier: quick
+//@ unwind: 6
+//@ unwindset: write_all=3 try_from_fn_erased=66 from_fn=66
+//@ timeout: 900
+//@ encodes: Call::<WithBody>::write (body phase, chunked writer: after-finish guard, delegation), BodyWriter::write, BodyWriter::finish
+//@ stubs_note: body::write_chunk replaced by havoc constrained by chunk_spec (proven by c03_lemma_write_chunk_*); <Writer as io::Write>::write count-abstracted
+//@ vars: finished: bool; in: 0..=64; out: 0..=64
+//@ bounds: in,out <= 64
+//@ outside: larger windows at this level (the writer itself is covered up to 30808 by c03_composite_chunked_write)
+//@ clause: finished && non-empty input => Err(BodyContentAfterFinish), nothing emitted, state unchanged; finished && empty => (0,0); otherwise (consumed, produced) are the writer's counts and is_finished() <=> terminator emitted
+#[kani::proof]
+#[kani::stub(crate::body::write_chunk, crate::body::verif_h::p_write_chunk)]
+#[kani::stub(<Writer<'_> as std::io::Write>::write, crate::body::verif_h::p_writer_write_counts)]
+fn c03_call_chunked_step() {
+    let ended: bool = kani::any();
+    let il = any_le(N03);
+    let ol = any_le(N03);
+    let input = [0u8; N03];
+    let mut out = [0u8; N03];
+    let mut call: Call<WithBody, ()> = mk_call(mk_state(Phase::SendBody, bh::mk_writer_chunked(ended), None), true);
+    bh::ghost_reset();
+    let r = call.write(&input[..il], &mut out[..ol]);
+    let (_chunks, data, wire) = bh::ghost();
+    if ended && il > 0 {
+        assert!(r == Err(Error::BodyContentAfterFinish), "C03/non-empty-write-after-finish-refused");
+        assert!(call.is_finished(), "C03/finished-is-stable");
+        assert!(wire == 0, "C03/refusal-emits-nothing");
+    } else {
+        match r {
+            Err(_) => assert!(false, "C03/accepted-write-never-errs"),
+            Ok((i, o)) => {
+                if il > 0 {
+                    assert!(i == data && o == wire, "C03/only-whole-chunks-no-terminator-with-input");
+                    assert!(!call.is_finished(), "C03/not-finished-by-data-write");
+                    if ol >= 6 {
+                        assert!(i >= 1, "C19/progress-when-six-bytes-free");
+                    }
+                } else if ended {
+                    assert!(i == 0 && o == 0, "C03/terminator-exactly-once");
+                    assert!(call.is_finished(), "C03/finished-is-stable");
+                } else {
+                    assert!(i == 0 && o == if ol >= 5 { 5 } else { 0 }, "C03/terminator-iff-five-bytes-free");
+                    assert!(call.is_finished() == (o == 5), "C03/finished-iff-terminator-emitted");
+                }
+            }
+        }
+    }
+    assert!(phase_is_send_body(&call.state), "C03/stays-in-body-phase");
+    kani::cover!(ended && il > 0, "write-after-finish");
+    kani::cover!(!ended && il == 0 && ol == 4, "terminator-does-not-fit");
+    kani::cover!(!ended && il > 0 && ol == 5, "five-spare-bytes-with-input");
+    core::mem::forget(call);
+}
